@@ -885,6 +885,23 @@ class _GroupElem(ABC):
 
         jacobian_e_pg = FeArray.asfearray(Det(F_e_pg))
 
+        if self.dim != self.inDim and self.order > 1:
+            # a curved line or surface is longer / larger than its projection on the
+            # element's own axis / plane: the measure is the one of the curve / surface itself,
+            # sqrt(det(T T^t)) with T the tangent vectors, oriented as the projection is
+            connect = self._global_to_local_nodes[self.connect]
+            coord_e = self.coord[connect]
+            tangents_e_pg = np.einsum(
+                "pdn,eni->epdi", self.Get_dN_pg(matrixType), coord_e, optimize="optimal"
+            )
+            metric_e_pg = np.linalg.det(
+                tangents_e_pg @ np.swapaxes(tangents_e_pg, -1, -2)
+            )
+            sign_e_pg = np.where(np.asarray(jacobian_e_pg) < 0, -1.0, 1.0)
+            jacobian_e_pg = FeArray.asfearray(
+                sign_e_pg * np.sqrt(np.abs(metric_e_pg))
+            )
+
         if absoluteValues:
             jacobian_e_pg = np.abs(jacobian_e_pg)
 
